@@ -391,6 +391,24 @@ Proof.
   - unfold Ro. rewrite D1, D2, B3, E3. repeat split; auto.
 Qed.
 
+(* ADFI_read for EVERY response stream: it terminates; a hard error gives -1 (and only a non-empty stream can do that);
+   otherwise it delivers everything there is between the file position and min(position + n, end of file) -- short
+   counts and EINTR are retried, only a read() that returns 0 (end of file) ends the loop early -- and returns that count *)
+Theorem adfi_read_retry : forall o n,
+  exists r bytes o',
+    adfi_read o n = Some (r, bytes, o') /\ disk o' = disk o /\ (resps o = [] -> resps o' = []) /\
+    ((r = -1 /\ rderr o' = true /\ resps o <> []) \/
+     (bytes = firstn n (skipn (pos o) (disk o)) /\ r = Z.of_nat (length bytes) /\
+      pos o' = (pos o + length bytes)%nat /\ rderr o' = rderr o)).
+Proof.
+  intros o n. unfold adfi_read.
+  destruct (read_loop_spec (S (length (resps o) + n)) (set_sys_err o 0) n []) as (r & b & o' & H & D & N & C).
+  { simpl. lia. }
+  exists r, b, o'. simpl in *. split; [exact H|]. split; [exact D|]. split; [exact N|].
+  destruct C as [C|(C1 & C2 & C3 & C4)]; [left; exact C|right].
+  subst b. simpl. repeat split; auto.
+Qed.
+
 Lemma read_total o n : adfi_read o n <> None.
 Proof.
   unfold adfi_read. destruct (read_loop_spec (S (length (resps o) + n)) (set_sys_err o 0) n []) as (r & b & o' & H & _).
